@@ -1,0 +1,38 @@
+//go:build verif
+
+// Verification contracts (comments only; compiled only with -tags verif).
+// Checked by /verif/bin/govc; see /verif/DESIGN.md.
+
+package standard
+
+//@ type Service
+//@   // established by New (parseAndCheckParameters rejects nil for these)
+//@   valid self.chainTimeService != nil && self.validatingAccountsProvider != nil && self.executionConfigProvider != nil
+//@   // the submitters are the beacon node clients built in main.go: none is nil and each is a go-eth2-client service
+//@   valid forall k int :: 0 <= k && k < len(self.proposalPreparationsSubmitters) ==> !isnil(self.proposalPreparationsSubmitters[k]) && implements(self.proposalPreparationsSubmitters[k], "eth2client.Service")
+//@
+//@ // ---- C11: every beacon node receives a preparation for each validator with its resolved fee recipient ----
+//@ spec func prepAccountsErr() error
+//@ func (*Service).UpdatePreparations
+//@   requires nolocks()
+//@   // epochs are wall-clock epochs
+//@   assumes call CurrentEpoch (e): e <= 9223372036854775807
+//@   assumes call ValidatingAccountsForEpoch#1 (accts, err): err == prepAccountsErr() && (err == nil ==> forall k phase0.ValidatorIndex :: in(accts, k) ==> !isnil(accts[k]))
+//@   // the settings asked for are those of that very account
+//@   at call ProposerConfig#1: assert arg1 == account && arg2 == pubkeyOf(account)
+//@   // a preparation names the validator's own index with the fee recipient resolved for it
+//@   at call append#1: assert in(accounts, index#2) && accounts[index#2] == account && proposerConfig != nil
+//@   loop 1
+//@     invariant i == nvisited(1) && len(indices) == len(accounts)
+//@   loop 2
+//@     invariant forall k int :: 0 <= k && k < len(proposalPreparations) ==> proposalPreparations[k] != nil
+//@   // a validator whose settings cannot be resolved does not stop the others: the preparations are always sent
+//@   ensures prepAccountsErr() == nil && len(accounts) > 0 ==> result == nil && calls(go) == 1
+//@
+//@ func (*Service).updateProposalPreparations
+//@   requires nolocks() && epoch <= 9223372036854775807
+//@   // every beacon node is given the whole list, whatever the earlier ones answered
+//@   at call SubmitProposalPreparations#1: assert recv == s.proposalPreparationsSubmitters[rangeindex] && arg1 == proposalPreparations
+//@   loop 1
+//@     invariant -1 <= rangeindex && rangeindex < len(s.proposalPreparationsSubmitters) && calls(SubmitProposalPreparations) == rangeindex + 1
+//@   ensures calls(SubmitProposalPreparations) == len(s.proposalPreparationsSubmitters)
